@@ -8,6 +8,7 @@ import (
 
 	"github.com/Vedant9500/WTF/internal/config"
 	"github.com/Vedant9500/WTF/internal/database"
+	"github.com/Vedant9500/WTF/internal/utils"
 
 	"github.com/spf13/cobra"
 	"gopkg.in/yaml.v3"
@@ -122,7 +123,7 @@ func writePersonalDatabase(dbPath string, commands []database.Command) error {
 		return fmt.Errorf("failed to marshal commands: %w", err)
 	}
 
-	err = os.WriteFile(dbPath, data, 0644)
+	err = utils.WriteFileAtomic(dbPath, data, 0644)
 	if err != nil {
 		return fmt.Errorf("failed to write personal database: %w", err)
 	}
